@@ -114,4 +114,168 @@ theorem fromStr_noplus (s : Text) (h : '+' ∉ s) :
           have h3 : ¬ '=' = c := fun e => heq e.symm
           simp [h1, h2, h3, parseUInt_noplus _ h]
           cases specNumber (c :: r) <;> simp
+
+/-! ### The spec's reading is unique; decision procedure; spellings -/
+
+theorem readAs_some_iff (s : Text) (sp : Text × CmpOp) (op : CmpOp) (n : Nat) :
+    readAs s sp = some (op, n) ↔
+      ∃ ds, s = sp.1 ++ ds ∧ sp.2 = op ∧ ds ≠ [] ∧ ds.all isDigit = true ∧ decimalValue ds = n ∧ n ≤ maxInteger := by
+  simp only [readAs]
+  constructor
+  · intro h
+    split at h
+    · rename_i hc
+      simp only [Bool.and_eq_true, Bool.not_eq_true', decide_eq_true_eq] at hc
+      obtain ⟨⟨⟨hp, hne⟩, hd⟩, hm⟩ := hc
+      simp only [Option.some.injEq, Prod.mk.injEq] at h
+      obtain ⟨h1, h2⟩ := h
+      refine ⟨s.drop sp.1.length, ?_, h1, ?_, hd, h2, h2 ▸ hm⟩
+      · obtain ⟨t, ht⟩ := List.isPrefixOf_iff_prefix.1 hp
+        rw [← ht]; simp
+      · intro e; rw [e] at hne; simp at hne
+    · cases h
+  · rintro ⟨ds, hs, hop, hne, hd, hv, hm⟩
+    subst hs
+    have hp : sp.1.isPrefixOf (sp.1 ++ ds) = true := List.isPrefixOf_iff_prefix.2 ⟨ds, rfl⟩
+    have hdrop : (sp.1 ++ ds).drop sp.1.length = ds := by simp
+    have hne' : ds.isEmpty = false := by cases ds <;> simp_all
+    rw [hdrop, hp, hne', hd]
+    subst hv
+    simp [hm, hop]
+
+theorem nondigit_spellings : ∀ sp ∈ opSpellings, ∀ c ∈ sp.1, isDigit c = false := by decide
+
+theorem takeWhile_append_stop {p : Char → Bool} (a b : Text) (ha : ∀ c ∈ a, p c = true)
+    (hb : ∀ c t, b = c :: t → p c = false) : (a ++ b).takeWhile p = a := by
+  induction a with
+  | nil =>
+    cases b with
+    | nil => rfl
+    | cons c t => simp [hb c t rfl]
+  | cons x a ih =>
+    simp only [List.cons_append, List.takeWhile_cons, ha x (List.mem_cons_self ..), if_true]
+    rw [ih (fun c hc => ha c (List.mem_cons_of_mem _ hc))]
+
+theorem spelling_unique : ∀ sp ∈ opSpellings, ∀ sp' ∈ opSpellings, sp.1 = sp'.1 → sp.2 = sp'.2 := by decide
+
+/-- A string is well-formed in at most one way. -/
+theorem MemberCountDenotes_unique {s : Text} {op op' : CmpOp} {n n' : Nat}
+    (h : MemberCountDenotes s op n) (h' : MemberCountDenotes s op' n') : op = op' ∧ n = n' := by
+  obtain ⟨sp, hsp, ds, hs, hop, hne, hd, hv, _⟩ := h
+  obtain ⟨sp', hsp', ds', hs', hop', hne', hd', hv', _⟩ := h'
+  have key : ∀ (sp : Text × CmpOp) (ds : Text), sp ∈ opSpellings → ds ≠ [] → ds.all isDigit = true →
+      (sp.1 ++ ds).takeWhile (fun c => !isDigit c) = sp.1 := by
+    intro sp ds hsp hne hd
+    apply takeWhile_append_stop
+    · intro c hc; simp [nondigit_spellings sp hsp c hc]
+    · intro c t e; subst e; simp at hd; simp [hd.1]
+  have e1 : sp.1 = sp'.1 := by
+    rw [← key sp ds hsp hne hd, ← key sp' ds' hsp' hne' hd', ← hs, ← hs']
+  have e2 : ds = ds' := by
+    rw [hs, e1] at hs'; exact List.append_cancel_left hs'
+  refine ⟨?_, ?_⟩
+  · rw [← hop, ← hop']; exact spelling_unique sp hsp sp' hsp' e1
+  · rw [← hv, ← hv', e2]
+
+theorem findSome_readAs_iff (s : Text) (op : CmpOp) (n : Nat) :
+    opSpellings.findSome? (readAs s) = some (op, n) ↔ MemberCountDenotes s op n := by
+  constructor
+  · intro h
+    obtain ⟨sp, hsp, hr⟩ := List.exists_of_findSome?_eq_some h
+    exact ⟨sp, hsp, (readAs_some_iff s sp op n).1 hr⟩
+  · rintro ⟨sp, hsp, hd⟩
+    have hr := (readAs_some_iff s sp op n).2 hd
+    cases hf : opSpellings.findSome? (readAs s) with
+    | none =>
+      have := List.findSome?_eq_none_iff.1 hf sp hsp
+      rw [hr] at this; cases this
+    | some r =>
+      obtain ⟨op', n'⟩ := r
+      obtain ⟨sp', hsp', hr'⟩ := List.exists_of_findSome?_eq_some hf
+      have hd' : MemberCountDenotes s op' n' := ⟨sp', hsp', (readAs_some_iff s sp' op' n').1 hr'⟩
+      obtain ⟨e1, e2⟩ := MemberCountDenotes_unique ⟨sp, hsp, hd⟩ hd'
+      rw [e1, e2]
+
+theorem memberCountDecide_true_iff (s : Text) (x : Nat) :
+    memberCountDecide s x = some true ↔ MemberCountHolds s x := by
+  unfold memberCountDecide MemberCountHolds
+  constructor
+  · intro h
+    cases hf : opSpellings.findSome? (readAs s) with
+    | none => rw [hf] at h; cases h
+    | some r =>
+      obtain ⟨op, n⟩ := r
+      rw [hf] at h
+      simp only [Option.map_some, Option.some.injEq] at h
+      exact ⟨op, n, (findSome_readAs_iff s op n).1 hf, h⟩
+  · rintro ⟨op, n, hd, hc⟩
+    rw [(findSome_readAs_iff s op n).2 hd]
+    simp [hc]
+
+theorem memberCountDecide_none_iff (s : Text) (x : Nat) :
+    memberCountDecide s x = none ↔ ¬ ∃ op n, MemberCountDenotes s op n := by
+  unfold memberCountDecide
+  constructor
+  · intro h ⟨op, n, hd⟩
+    rw [(findSome_readAs_iff s op n).2 hd] at h
+    cases h
+  · intro h
+    cases hf : opSpellings.findSome? (readAs s) with
+    | none => rfl
+    | some r =>
+      obtain ⟨op, n⟩ := r
+      exact absurd ⟨op, n, (findSome_readAs_iff s op n).1 hf⟩ h
+theorem isDigit_eq (c : Char) : isDigit c = c.isDigit := by
+  simp [isDigit, Char.isDigit, Char.le_def]
+
+theorem all_isDigit_toDigits (n : Nat) : (Nat.toDigits 10 n).all isDigit = true := by
+  simp only [List.all_eq_true]
+  intro c hc
+  rw [isDigit_eq]
+  exact Nat.isDigit_of_mem_toDigits (by decide) (by decide) hc
+
+theorem decimalValue_append (a : Text) (c : Char) : decimalValue (a ++ [c]) = decimalValue a * 10 + (c.toNat - 48) := by
+  simp [decimalValue, List.foldl_append]
+
+theorem decimalValue_toDigits (n : Nat) : decimalValue (Nat.toDigits 10 n) = n := by
+  induction n using Nat.strongRecOn with
+  | _ n ih =>
+    rw [Nat.toDigits_eq_if (by decide)]
+    split
+    · rename_i h
+      simp [decimalValue, Nat.toNat_digitChar_sub_48_of_lt_ten h]
+    · rename_i h
+      rw [decimalValue_append, ih (n / 10) (by omega),
+        Nat.toNat_digitChar_sub_48_of_lt_ten (Nat.mod_lt _ (by decide))]
+      omega
+
+theorem plus_notMem_toDigits (n : Nat) : '+' ∉ Nat.toDigits 10 n := by
+  intro h
+  have := Nat.isDigit_of_mem_toDigits (by decide) (by decide) h
+  revert this; decide
+
+theorem plus_notMem_spellings : ∀ sp ∈ opSpellings, '+' ∉ sp.1 := by decide
+
+theorem fromStr_spelling (sp : Text × CmpOp) (hsp : sp ∈ opSpellings) (n : Nat) (hn : n ≤ maxInteger) :
+    MemberCountIs.fromStr (sp.1 ++ Nat.toDigits 10 n) = some ⟨sp.2, n⟩ := by
+  have hplus : '+' ∉ sp.1 ++ Nat.toDigits 10 n := by
+    intro h
+    rcases List.mem_append.1 h with h | h
+    · exact plus_notMem_spellings sp hsp h
+    · exact plus_notMem_toDigits n h
+  rw [fromStr_noplus _ hplus,
+    (findSome_readAs_iff _ sp.2 n).2
+      ⟨sp, hsp, Nat.toDigits 10 n, rfl, rfl, Nat.toDigits_ne_nil, all_isDigit_toDigits n,
+        decimalValue_toDigits n, hn⟩]
+  rfl
+
+theorem fromStr_display (r : MemberCountIs) (hn : r.count ≤ maxSafeUInt) :
+    MemberCountIs.fromStr r.display = some r := by
+  obtain ⟨op, n⟩ := r
+  cases op
+  · exact fromStr_spelling ([], .eq) (by decide) n hn
+  · exact fromStr_spelling ("<".toList, .lt) (by decide) n hn
+  · exact fromStr_spelling (">".toList, .gt) (by decide) n hn
+  · exact fromStr_spelling (">=".toList, .ge) (by decide) n hn
+  · exact fromStr_spelling ("<=".toList, .le) (by decide) n hn
 end Ruma.Push
